@@ -106,6 +106,51 @@ theorem lex_quoteIdent (k : Kind) (n rest : Str) (hp : dblPercent k = false ∨ 
   have := lexFrom_delimited k n rest h
   simpa [quoteIdent, escapeIdent_eq k n hp, List.append_assoc] using this
 
+/-! ## string literals -/
+
+theorem run_strEscape (k : Kind) (a s : Str) (hb : backslashEscapes k = false ∨ '\\' ∉ s) :
+    runSt k (.str a) (escapeClose '\'' s) = .str (a ++ s) ∧ emits k (.str a) (escapeClose '\'' s) = [] := by
+  induction s generalizing a with
+  | nil => simp [escapeClose, runSt, emits]
+  | cons c t ih =>
+    have hb' : backslashEscapes k = false ∨ '\\' ∉ t := by
+      rcases hb with h | h
+      · exact Or.inl h
+      · exact Or.inr (fun e => h (by simp [e]))
+    by_cases h : c = '\''
+    · subst h
+      have := ih (a ++ ['\'']) hb'
+      simp [escapeClose, runSt, emits, step, this]
+    · have hc : (backslashEscapes k && c == '\\') = false := by
+        rcases hb with h' | h'
+        · simp [h']
+        · have : c ≠ '\\' := fun e => h' (by simp [e])
+          simp [this]
+      have := ih (a ++ [c]) hb'
+      simp [escapeClose, h, runSt, emits, step, hc, this]
+
+theorem lex_sqlLiteral (k : Kind) (s rest : Str) (hb : backslashEscapes k = false ∨ '\\' ∉ s)
+    (h : rest.head? ≠ some '\'') :
+    lexFrom k .none (sqlLiteral s ++ rest) = .str s :: lexFrom k .none rest := by
+  have h1 : step k .none '\'' = (.str [], []) := by
+    cases k <;> simp [step, stepNone, isWordStart, isSpace, isPySpace, openQ]
+  obtain ⟨e1, e2⟩ := run_strEscape k [] s hb
+  simp only [sqlLiteral, List.cons_append, List.append_assoc, List.nil_append]
+  rw [lexFrom, h1, lexFrom_append, e1, e2]
+  cases rest with
+  | nil => simp [lexFrom, step, flush]
+  | cons c cs =>
+    have hc : c ≠ '\'' := by simpa using h
+    simp [lexFrom, step, hc]
+
+theorem escapeClose_id (q : Char) (s : Str) (h : q ∉ s) : escapeClose q s = s := by
+  induction s with
+  | nil => rfl
+  | cons c t ih =>
+    have hc : c ≠ q := fun e => h (by simp [e])
+    have ht : q ∉ t := fun e => h (by simp [e])
+    simp [escapeClose, hc, ih ht]
+
 /-! ## bare words -/
 
 theorem run_word (k : Kind) (a n : Str) (h : n.all isWordChar = true) :
@@ -155,5 +200,150 @@ theorem legal_wordChar (c : Char) (h : isLegalChar c = true) : isWordChar c = tr
   · subst h; decide
   · subst h; decide
   · subst h; decide
+
+
+theorem requiresQuotes_false (k : Kind) (r : Str → Bool) (n : Str) (h : requiresQuotes k r n = false) :
+    r n = false ∧ legalChars n = true ∧ hasUpper n = false ∧
+    ∃ c t, n = c :: t ∧ illegalInitial k c = false := by
+  unfold requiresQuotes at h
+  cases n with
+  | nil => simp at h
+  | cons c t =>
+    simp only [Bool.or_eq_false_iff, Bool.not_eq_false'] at h
+    exact ⟨h.1.1.1, h.1.2, h.2, c, t, rfl, h.1.1.2⟩
+
+theorem legalChars_head (c : Char) (t : Str) (h : legalChars (c :: t) = true) : isLegalChar c = true := by
+  match t, h with
+  | [], h => simpa [legalChars] using h
+  | [d], h =>
+    by_cases hd : d = '\n'
+    · subst hd; simpa [legalChars] using h
+    · have : isLegalChar c = true ∧ legalChars [d] = true := by simpa [legalChars, hd] using h
+      exact this.1
+  | d :: e :: r', h =>
+    have : isLegalChar c = true ∧ legalChars (d :: e :: r') = true := by simpa [legalChars] using h
+    exact this.1
+
+theorem wordStart_of_legal (k : Kind) (c : Char) (hl : isLegalChar c = true) (hi : illegalInitial k c = false)
+    (hu : isUpperCh c = false) : isWordStart k c = true := by
+  unfold isLegalChar at hl
+  unfold illegalInitial at hi
+  unfold isUpperCh at hu
+  unfold isWordStart
+  simp only [Bool.or_eq_true, beq_iff_eq, Bool.or_eq_false_iff, Bool.and_eq_false_imp, bne_iff_ne,
+    Bool.and_eq_true, beq_eq_false_iff_ne] at *
+  rcases hl with ((((((h | h) | h) | h) | h) | h) | h)
+  · have : c.isAlpha = true ∨ c.isDigit = true := by simpa [Char.isAlphanum] using h
+    rcases this with h' | h'
+    · simp [h']
+    · simp [h'] at hi
+  · subst h
+    have : k ≠ .oracle := by
+      intro e; subst e; simp at hi
+    simp [this]
+  · simp [h] at hi
+  · simp [h] at hu
+  · subst h; right; decide
+  · subst h; right; decide
+  · simp [h] at hu
+
+/-- **bare names**: a name SQLAlchemy leaves unquoted lexes as one bare word -/
+theorem lex_bare (k : Kind) (r : Str → Bool) (n rest : Str) (hq : requiresQuotes k r n = false)
+    (hl : n.getLast? ≠ some '\n')
+    (hs : ∀ c, rest.head? = some c → isWordChar c = false) :
+    lexFrom k .none (n ++ rest) = .word n :: lexFrom k .none rest := by
+  obtain ⟨_, hleg, hup, c, t, rfl, hi⟩ := requiresQuotes_false k r n hq
+  have hall := legalChars_all _ hleg hl
+  simp only [List.all_cons, Bool.and_eq_true] at hall
+  have hupc : isUpperCh c = false := by
+    simp only [hasUpper, List.any_cons, Bool.or_eq_false_iff] at hup
+    exact hup.1
+  have hws := wordStart_of_legal k c hall.1 hi hupc
+  have hwt : t.all isWordChar = true := by
+    rw [List.all_eq_true] at *
+    intro x hx
+    exact legal_wordChar x (hall.2 x hx)
+  obtain ⟨e1, e2⟩ := run_word k [c] t hwt
+  have h1 : step k .none c = (.word [c], []) := by simp [step, stepNone, hws]
+  rw [List.cons_append, lexFrom, h1, lexFrom_append, e1, e2]
+  cases rest with
+  | nil => simp [lexFrom, flush]
+  | cons d ds =>
+    have hd : isWordChar d = false := hs d (by simp)
+    simpa using lexFrom_word_sep k ([c] ++ t) d ds hd
+
+/-! ## names as the visitors format them -/
+
+/-- the token a correctly formatted name lexes to -/
+def nameTok (k : Kind) (r : Str → Bool) (n : Name) : Tok :=
+  match n.qn with
+  | some (some true) => .qid n.s
+  | _ => if requiresQuotes k r n.s then .qid n.s else .word n.s
+
+/-- well-formedness of a name for the statement theorems -/
+structure NameOK (k : Kind) (n : Name) : Prop where
+  nonempty : n.s ≠ []
+  pct : dblPercent k = false ∨ '%' ∉ n.s
+  nl : n.s.getLast? ≠ some '\n'
+  tab : '\t' ∉ n.s
+  noForceOff : n.qn ≠ some (some false)
+
+/-- a character that may directly follow a name or an opaque text -/
+def sepChar (k : Kind) (c : Char) : Bool := !isWordChar c && c != closeQ k && c != '\''
+
+def sepHead (k : Kind) (rest : Str) : Prop := ∀ c, rest.head? = some c → sepChar k c = true
+
+theorem lex_quote (k : Kind) (r : Str → Bool) (n rest : Str)
+    (hp : dblPercent k = false ∨ '%' ∉ n) (hl : n.getLast? ≠ some '\n') (hs : sepHead k rest) :
+    lexFrom k .none (quote k r n ++ rest) =
+      (if requiresQuotes k r n then Tok.qid n else Tok.word n) :: lexFrom k .none rest := by
+  unfold quote
+  by_cases hq : requiresQuotes k r n = true
+  · simp only [hq, if_true]
+    apply lex_quoteIdent k n rest hp
+    intro e
+    have := hs _ e
+    simp [sepChar] at this
+  · simp only [hq]
+    simp only [Bool.not_eq_true] at hq
+    apply lex_bare k r n rest hq hl
+    intro c e
+    have := hs c e
+    simp only [sepChar, Bool.and_eq_true, Bool.not_eq_true'] at this
+    exact this.1.1
+
+theorem lex_quoteName (k : Kind) (r : Str → Bool) (n : Name) (rest : Str) (ok : NameOK k n) (hs : sepHead k rest) :
+    lexFrom k .none (quoteName k r n ++ rest) = nameTok k r n :: lexFrom k .none rest := by
+  have hq : rest.head? ≠ some (closeQ k) := by
+    intro e
+    have := hs _ e
+    simp [sepChar] at this
+  unfold quoteName nameTok
+  match hqn : n.qn with
+  | some (some true) => simpa using lex_quoteIdent k n.s rest ok.pct hq
+  | some (some false) => exact absurd hqn ok.noForceOff
+  | some none => simpa using lex_quote k r n.s rest ok.pct ok.nl hs
+  | none => simpa using lex_quote k r n.s rest ok.pct ok.nl hs
+
+theorem denote_nameTok (k : Kind) (r : Str → Bool) (n : Name) : denote r (nameTok k r n) = some n.s := by
+  unfold nameTok
+  have bare : requiresQuotes k r n.s = false → denote r (.word n.s) = some n.s := by
+    intro h
+    obtain ⟨hr, _, hup, _⟩ := requiresQuotes_false k r n.s h
+    have : bareSafe r n.s = true := by
+      simp only [bareSafe, hr, Bool.not_false, Bool.true_and]
+      simp only [hasUpper] at hup
+      rw [List.all_eq_true]
+      intro x hx
+      have := List.any_eq_false.mp hup x hx
+      simpa [isUpperCh] using this
+    simp [denote, this]
+  match n.qn with
+  | some (some true) => simp [denote]
+  | some (some false) | some none | none =>
+    by_cases h : requiresQuotes k r n.s = true
+    · simp [h, denote]
+    · simp only [Bool.not_eq_true] at h
+      simp [h, bare h]
 
 end Lemmas.Ident
